@@ -103,7 +103,9 @@ func parent() {
 			run.Fatal("shard %d of %d exited with code %d", i, n, r.code)
 		}
 		var ev childEvidence
-		if err := json.Unmarshal(b, &ev); err != nil {
+		dec := json.NewDecoder(bytes.NewReader(b))
+		dec.UseNumber() // samples carry 64-bit seeds
+		if err := dec.Decode(&ev); err != nil {
 			run.Fatal("shard %d: bad evidence: %v", i, err)
 		}
 		evaluations += ev.Coverage.Evaluations
